@@ -57,6 +57,24 @@ type Transport struct {
 	// whether a client follows redirects (2 requests) or not (1 request).
 	Redirect atomic.Bool
 	Count    atomic.Int64
+	// while a probe records: the rendering of every request the library sends (the follow-up
+	// request of a redirect, which carries the marker, is the redirect policy's and is left out)
+	recMu sync.Mutex
+	rec   *[]string
+}
+
+// Record starts recording outgoing requests; the returned function stops it and returns them.
+func (t *Transport) Record() func() []string {
+	var got []string
+	t.recMu.Lock()
+	t.rec = &got
+	t.recMu.Unlock()
+	return func() []string {
+		t.recMu.Lock()
+		t.rec = nil
+		t.recMu.Unlock()
+		return got
+	}
 }
 
 var Net = &Transport{hosts: map[string]http.Handler{}}
@@ -113,6 +131,11 @@ const marker = "c20r"
 
 func (t *Transport) RoundTrip(req *http.Request) (*http.Response, error) {
 	t.Count.Add(1)
+	t.recMu.Lock()
+	if t.rec != nil && req.URL.Query().Get(marker) == "" {
+		*t.rec = append(*t.rec, renderRequest(req))
+	}
+	t.recMu.Unlock()
 	if err := req.Context().Err(); err != nil {
 		return nil, err
 	}
@@ -294,6 +317,7 @@ func Build(h *Hooks) *World {
 	w.R.Core.NoLog = true
 	Net.Register(rig.Host, w.R.H[0])
 	Net.Register(LegacyHost, w.R.H[1])
+	registerTenants()
 	w.CS = &http.Client{Transport: Net, CheckRedirect: AllowRedirects} // the caller chose: own redirect policy, no timeout
 	var err error
 	w.AppSigner, err = client.NewSignerFromPrivateKeyByte(keys.Get("p256b").PEM, "jk2")
@@ -824,6 +848,13 @@ type Op struct {
 	// in the core alphabet. The quick tier pairs variants with every core operation (both
 	// orders) but not with each other; the thorough tier takes the full product.
 	Variant bool
+	// Fault: kind of failure of a failing variant of a client-side call (Kind fault-client) or of the
+	// requests of a router (Kind fault-provider: storage faults).
+	// Core: member of the subset of failing operations that the quick tier pairs with every
+	// other operation (the call fails while the request is built, after the form was filled;
+	// package default client, client secret); the thorough tier pairs all of them.
+	Fault string
+	Core  bool
 }
 
 func two(name, entry string, prep func(w *World) any, call func(w *World, in any) string) Op {
@@ -1370,7 +1401,7 @@ func buildOps() []Op {
 			return "ok"
 		}},
 	)
-	return ops
+	return append(ops, faultOps()...)
 }
 
 // CallOps are the operations that act on the shared base instances (used by the
@@ -1378,7 +1409,10 @@ func buildOps() []Op {
 func CallOps() []*Op {
 	var out []*Op
 	for i := range Ops {
-		if !strings.HasPrefix(Ops[i].Kind, "ctor") {
+		// the failing variants of the client calls construct an instance of their own per call (nothing shared
+		// to race on); the storage-fault operations install a fault plan on the shared storage (every concurrent
+		// request would fail with them)
+		if !strings.HasPrefix(Ops[i].Kind, "ctor") && !strings.HasPrefix(Ops[i].Kind, "fault-") {
 			out = append(out, &Ops[i])
 		}
 	}
@@ -1403,6 +1437,14 @@ var routePaths = append([]string{"/authorize", "/oauth/token", "/oauth/introspec
 // Behaviour returns the observable behaviour of i as "aspect -> value".
 func (w *World) Behaviour(i *Inst) map[string]string {
 	out := map[string]string{}
+	// both: whether the instance's client follows a 302 on the call AND the request the call sends;
+	// request: the request only (calls whose redirect policy is the library's own, or a third party's)
+	both := func(name string, call func()) {
+		out["redirects:"+name], out["request:"+name] = w.probeReq(call)
+	}
+	request := func(name string, call func()) {
+		_, out["request:"+name] = w.probeReq(call)
+	}
 	switch i.Kind {
 	case "provider", "legacy":
 		host := strings.TrimPrefix(i.Issuer, "https://")
@@ -1432,28 +1474,47 @@ func (w *World) Behaviour(i *Inst) map[string]string {
 		r := i.RP
 		out["endpoints:client"] = strings.Join([]string{r.OAuthConfig().Endpoint.AuthURL, r.OAuthConfig().Endpoint.TokenURL, r.UserinfoEndpoint(),
 			r.GetEndSessionEndpoint(), r.GetRevokeEndpoint(), r.GetDeviceAuthorizationEndpoint(), r.Issuer()}, " ")
-		out["redirects:discovery"] = w.probe(func() { client.Discover(w.Ctx, rig.Issuer, r.HttpClient()) })
-		out["redirects:token"] = w.probe(func() { rp.RefreshTokens[*oidc.IDTokenClaims](w.Ctx, r, "no-such-refresh-token", "", "") })
+		both("discovery", func() { client.Discover(w.Ctx, rig.Issuer, r.HttpClient()) })
+		both("token", func() { rp.RefreshTokens[*oidc.IDTokenClaims](w.Ctx, r, "no-such-refresh-token", "", "") })
 		if r.UserinfoEndpoint() != "" {
-			out["redirects:userinfo"] = w.probe(func() { rp.Userinfo[*oidc.UserInfo](w.Ctx, "no-such-token", "Bearer", "u1", r) })
+			both("userinfo", func() { rp.Userinfo[*oidc.UserInfo](w.Ctx, "no-such-token", "Bearer", "u1", r) })
 		}
-		out["redirects:keys"] = w.probe(func() { r.IDTokenVerifier().KeySet.VerifySignature(w.Ctx, unknownKidJWS) })
+		both("keys", func() { r.IDTokenVerifier().KeySet.VerifySignature(w.Ctx, unknownKidJWS) })
+		// the remaining helpers that build a form: what this instance sends must not depend on
+		// what any instance did (or failed to do) before
+		if rc, ok := r.(client.RevokeCaller); ok && rc.GetRevokeEndpoint() != "" {
+			request("revoke", func() { rp.RevokeToken(w.Ctx, r, "no-such-refresh-token", "refresh_token") })
+		}
+		if r.GetEndSessionEndpoint() != "" {
+			request("end_session", func() { rp.EndSession(w.Ctx, r, "no-such-id-token", "https://rp.example/out", "probe-state") })
+		}
+		if r.GetDeviceAuthorizationEndpoint() != "" {
+			request("device_authorization", func() { rp.DeviceAuthorization(w.Ctx, []string{"openid"}, r, nil) })
+		}
+		request("device_token", func() { rp.DeviceAccessToken(w.Ctx, "no-such-device-code", w.PollInterval, r) })
+		request("client_credentials", func() { rp.ClientCredentials(w.Ctx, r, url.Values{"audience": {"https://api.example"}}) })
 	case "ts":
 		out["endpoints:client"] = i.TS.(client.TokenEndpointCaller).TokenEndpoint()
-		out["redirects:discovery"] = w.probe(func() { client.Discover(w.Ctx, rig.Issuer, i.TS.(client.TokenEndpointCaller).HttpClient()) })
-		out["redirects:token"] = w.probe(func() { i.TS.TokenCtx(w.Ctx) })
+		both("discovery", func() { client.Discover(w.Ctx, rig.Issuer, i.TS.(client.TokenEndpointCaller).HttpClient()) })
+		both("token", func() { i.TS.TokenCtx(w.Ctx) })
 	case "ks":
 		out["endpoints:client"] = i.V.Issuer + " " + i.V.ClientID
-		out["redirects:keys"] = w.probe(func() { i.V.KeySet.VerifySignature(w.Ctx, unknownKidJWS) })
+		both("keys", func() { i.V.KeySet.VerifySignature(w.Ctx, unknownKidJWS) })
 	case "rs":
 		out["endpoints:client"] = i.RS.IntrospectionURL() + " " + i.RS.TokenEndpoint()
-		out["redirects:discovery"] = w.probe(func() { client.Discover(w.Ctx, rig.Issuer, i.RS.HttpClient()) })
-		out["redirects:introspect"] = w.probe(func() { rs.Introspect[*oidc.IntrospectionResponse](w.Ctx, i.RS, "no-such-token") })
+		both("discovery", func() { client.Discover(w.Ctx, rig.Issuer, i.RS.HttpClient()) })
+		both("introspect", func() { rs.Introspect[*oidc.IntrospectionResponse](w.Ctx, i.RS, "no-such-token") })
+		// a resource server is a TokenEndpointCaller as well (client.JWTProfileExchange, client.CallTokenEndpoint)
+		request("jwt_profile_grant", func() {
+			client.JWTProfileExchange(w.Ctx, oidc.NewJWTProfileGrantRequest("no-such-assertion", "openid"), i.RS)
+		})
 	case "te":
 		out["endpoints:client"] = i.TE.TokenEndpoint()
-		out["redirects:discovery"] = w.probe(func() { client.Discover(w.Ctx, rig.Issuer, i.TE.HttpClient()) })
-		out["redirects:token"] = w.probe(func() {
-			tokenexchange.ExchangeToken(w.Ctx, i.TE, "no-such-token", oidc.AccessTokenType, "", "", nil, nil, nil, "")
+		both("discovery", func() { client.Discover(w.Ctx, rig.Issuer, i.TE.HttpClient()) })
+		both("token", func() {
+			// every list-valued parameter with two members: how a list is rendered is part of the request
+			tokenexchange.ExchangeToken(w.Ctx, i.TE, "no-such-token", oidc.AccessTokenType, "", "", []string{"https://api.example/a", "https://api.example/b"},
+				[]string{"aud-a", "aud-b"}, []string{"openid", "profile"}, "")
 		})
 	}
 	return out
@@ -1470,26 +1531,39 @@ var unknownKidJWS = func() *jose.JSONWebSignature {
 // probe runs a library call while every first request is answered with a 302 and
 // reports whether the instance's HTTP client followed it.
 func (w *World) probe(call func()) string {
+	follow, _ := w.probeReq(call)
+	return follow
+}
+
+// probeReq is probe plus the rendering of every request the call sent on its own account
+// (method, URL, header set, decoded body; see renderRequest).
+func (w *World) probeReq(call func()) (follow, requests string) {
 	if w.Quiesce != nil {
 		w.Quiesce()
 	}
 	Net.Redirect.Store(true)
+	stop := Net.Record()
 	n0 := Net.Count.Load()
 	p := engine.Safe(call)
 	if w.Quiesce != nil {
 		w.Quiesce()
 	}
 	n := Net.Count.Load() - n0
+	reqs := stop()
 	Net.Redirect.Store(false)
+	requests = fmt.Sprintf("%d request(s)", len(reqs))
+	for i, r := range reqs {
+		requests += fmt.Sprintf(" [%d] %s", i+1, r)
+	}
 	switch {
 	case p != "":
-		return "panic"
+		return "panic", requests
 	case n == 1:
-		return "302-not-followed"
+		return "302-not-followed", requests
 	case n == 2:
-		return "302-followed"
+		return "302-followed", requests
 	}
-	return fmt.Sprintf("requests=%d", n)
+	return fmt.Sprintf("requests=%d", n), requests
 }
 
 // SortedKeys is a tiny helper.
